@@ -14,3 +14,5 @@ func verifRead(t *table, offset wal.Offset) {}
 func verifReadInit(t *table, offset wal.Offset) {}
 
 func verifCoalesced(t *table, n int) {}
+
+func verifClosed(db *DB) {}
